@@ -121,9 +121,10 @@ Theorem C14_pinned_fullsync_forgotten : forall fl crash s, f_fs fl = FsVolatile 
 Proof. exact pinned_fullsync_forgotten. Qed.
 Print Assumptions C14_pinned_fullsync_forgotten.
 
-(** EVERY start changes the stored retryDelay of every reRun handler: the rescaling has no fixed point in int64 *)
+(** EVERY start changes the stored retryDelay of every reRun handler of a cron-triggered job: the rescaling has no
+    fixed point in int64 (verify returns before the handlers of an onchange trigger) *)
 Theorem C14_pinned_delay_always_moves : forall j c d s,
-  j_delay c = Some d -> - 2 ^ 63 <= d < 2 ^ 63 -> assoc j (d_jcfg s) = Some c ->
+  j_trig c < 0 -> j_delay c = Some d -> - 2 ^ 63 <= d < 2 ^ 63 -> assoc j (d_jcfg s) = Some c ->
   In (j, verify_cfg DelayRescale c) (d_jcfg (job_reopen DelayRescale s))
   /\ j_delay (verify_cfg DelayRescale c) <> j_delay c.
 Proof. exact pinned_delay_always_moves. Qed.
@@ -137,19 +138,21 @@ Definition demo_hist : list hop :=
   [HDm (DCreate 1 plain_cfg); HDm (DCreate 2 {| g_pub := [1]; g_kind := 0; g_cfg := 0 |});
    HDm (DPost 1 false 0 false [{| w_e := 1; w_v := 10; w_t := -1; w_del := false |};
                                {| w_e := 2; w_v := 11; w_t := 1; w_del := false |}]);
-   HJob (JAdd 0 {| j_paused := false; j_src := 1; j_sink := 2; j_delay := Some 5 |});
+   HJob (JAdd 0 {| j_paused := false; j_src := 1; j_sink := 2; j_delay := Some 5; j_trig := -1 |});
    HJob (JRun 0); HJob (JPause 0 true);
+   HJob (JAdd 1 {| j_paused := false; j_src := 2; j_sink := 1; j_delay := None; j_trig := 2 |});
    HSec (OpRegister "a"); HSec (OpSetAcl "a" [ac_of_code 0; ac_of_code 5]); HSec (OpDelAcl "b");
    HProv (PAdd 0 1); HProv (PAdd 10 2);
    HDm (DPost 2 true 1 false [{| w_e := 1; w_v := 10; w_t := -1; w_del := false |}]);
    HDm (DCreate 5 {| g_pub := []; g_kind := 1; g_cfg := 7 |}); HDm (DRename 5 6);
    HDm (DDelete 1)].
 
-(** the demo history really builds state in every subsystem (the copy job moved its token to 2, the sink holds the
+(** the demo history really builds state in every subsystem (the copy job moved its token to 2, the onchange job 1 was run by the POST that opened
+    the full sync on the dataset it monitors and copied two entities, the sink holds the
     two entities, a full sync is open on it, a proxy dataset was renamed and its stored record kept kind and configuration, ids 0..10 are assigned), and under the pinned flags a restart after it is visible *)
 Example C14_nonvacuous_state :
   let h := fst (run fl_fixed demo_hist hub_init) in
-  d_jtok (h_job h) = [(0, 2)] /\ map fst (m_reg (h_dm h)) = [-1; 2; 6] /\ m_del (h_dm h) = [2]
+  d_jtok (h_job h) = [(0, 2); (1, 2)] /\ d_jhist (h_job h) = [(0, (false, 2)); (1, (false, 2))] /\ map fst (m_reg (h_dm h)) = [-1; 2; 6] /\ m_del (h_dm h) = [2]
   /\ assoc 6 (d_reg (h_dm h)) = Some {| r_id := 4; r_pub := []; r_kind := 1; r_cfg := 7 |}
   /\ List.length (d_ids (h_dm h)) = 11%nat /\ amem 3 (m_fs (h_dm h)) = true
   /\ obs ["a"%string] (reopen fl_fixed false h) = obs ["a"%string] h
